@@ -1,6 +1,7 @@
 package main
 
 import (
+	"context"
 	"crypto/ecdh"
 	"crypto/x509"
 	"encoding/base64"
@@ -8,6 +9,7 @@ import (
 	"fmt"
 	gobig "math/big"
 	"os"
+	"os/exec"
 	"runtime"
 	"strings"
 	"sync"
@@ -274,19 +276,42 @@ func init() {
 	executors["qr-member"] = func(o Op) string {
 		return fmt.Sprint(isQRInd(gb(o["p"]), gb(o["q"]), gb(o["x"])))
 	}
-	executors["keygen-workers"] = func(o Op) string {
-		// re-runs the real generator: no worker may be left some time after GenerateKeyPair returned
-		ln, count := uint(o.int("ln")), o.int("count")
+	// re-runs the real generator: no worker may be left some time after GenerateKeyPair returned.
+	// Runs in a child process so that a generation that does not return can be abandoned.
+	children["keygen-workers-child"] = func(args []string) {
+		var ln, count, wait int
+		fmt.Sscan(args[0], &ln)
+		fmt.Sscan(args[1], &count)
+		fmt.Sscan(args[2], &wait)
 		for i := 0; i < count; i++ {
 			base := runtime.NumGoroutine()
-			if _, _, err := gabikeys.VerifGenerateSafePrimePair(c16Param(ln)); err != nil {
-				return "err"
+			if _, _, err := gabikeys.VerifGenerateSafePrimePair(c16Param(uint(ln))); err != nil {
+				fmt.Println("err")
+				return
 			}
-			if waitGoroutines(base, time.Duration(o.int("wait"))*time.Millisecond) > 0 {
-				return "leak"
+			if waitGoroutines(base, time.Duration(wait)*time.Millisecond) > 0 {
+				fmt.Println("leak")
+				return
 			}
 		}
-		return "clean"
+		fmt.Println("clean")
+	}
+	executors["keygen-workers"] = func(o Op) string {
+		self, err := os.Executable()
+		if err != nil {
+			return "err"
+		}
+		budget := keygenBudget(uint(o.int("ln"))) + time.Duration(o.int("count"))*200*time.Millisecond
+		ctx, cancel := context.WithTimeout(context.Background(), budget)
+		defer cancel()
+		out, err := exec.CommandContext(ctx, self, "keygen-workers-child", fmt.Sprint(o.int("ln")), fmt.Sprint(o.int("count")), fmt.Sprint(o.int("wait"))).Output()
+		if ctx.Err() != nil {
+			return "timeout"
+		}
+		if err != nil {
+			return "err"
+		}
+		return strings.TrimSpace(string(out))
 	}
 	executors["safeprime-stop"] = func(o Op) string {
 		bits, recvs, mode := o.int("bits"), o.int("recvs"), o.str("mode")
@@ -337,6 +362,63 @@ func c16Generate(ln uint, nattr int) c16Key {
 		panic(err)
 	}
 	return c16Key{sk: sk, pk: pk, ln: ln, nattr: nattr}
+}
+
+// keygenBudget: how long one key generation may take before it counts as not terminating (toy
+// lengths take milliseconds to a few seconds, 1024 bits a few minutes on a loaded machine).
+func keygenBudget(ln uint) time.Duration {
+	switch {
+	case ln <= 200:
+		return 45 * time.Second
+	case ln <= 512:
+		return 240 * time.Second
+	}
+	return 40 * time.Minute
+}
+
+// c16GenerateDeadline runs c16Generate but gives up after the budget; the abandoned call keeps
+// running in its goroutine until the process exits.
+func c16GenerateDeadline(ln uint, nattr int) (c16Key, bool) {
+	ch := make(chan c16Key, 1)
+	go func() { ch <- c16Generate(ln, nattr) }()
+	select {
+	case k := <-ch:
+		return k, true
+	case <-time.After(keygenBudget(ln)):
+		return c16Key{}, false
+	}
+}
+
+func terminatesOp(ln uint, nattr int, class string) Op {
+	return Op{"op": "keygen-terminates", "class": class, "fkey": "keygen-does-not-terminate", "label": "done", "nomodel": true,
+		"ln": int(ln), "nattr": nattr, "budget_ms": int(keygenBudget(ln) / time.Millisecond)}
+}
+
+func init() {
+	// child process: one key generation, exit 0 when it returned
+	children["keygen-child"] = func(args []string) {
+		var ln, nattr int
+		fmt.Sscan(args[0], &ln)
+		fmt.Sscan(args[1], &nattr)
+		c16Generate(uint(ln), nattr)
+	}
+	executors["keygen-terminates"] = func(o Op) string {
+		self, err := os.Executable()
+		if err != nil {
+			return "err"
+		}
+		ctx, cancel := context.WithTimeout(context.Background(), time.Duration(o.int("budget_ms"))*time.Millisecond)
+		defer cancel()
+		cmd := exec.CommandContext(ctx, self, "keygen-child", fmt.Sprint(o.int("ln")), fmt.Sprint(o.int("nattr")))
+		err = cmd.Run()
+		if ctx.Err() != nil {
+			return "timeout"
+		}
+		if err != nil {
+			return "err"
+		}
+		return "done"
+	}
 }
 
 func leakTimeout(ln uint) time.Duration {
@@ -487,6 +569,11 @@ func genC16(g *Rng, tier string, emit func(Op)) {
 	}
 	var keys []c16Key
 	t0 := time.Now()
+	for _, pl := range plans {
+		if pl.ln < 1024 {
+			emit(terminatesOp(pl.ln, 1+g.intn(20), fmt.Sprintf("keygen-terminates-%d", pl.ln)))
+		}
+	}
 	leakEvents := 0
 	for _, pl := range plans {
 		done := 0
@@ -501,18 +588,29 @@ func genC16(g *Rng, tier string, emit func(Op)) {
 			}
 			baseline := runtime.NumGoroutine()
 			batch := make([]c16Key, conc)
+			oks := make([]bool, conc)
 			if conc == 1 {
-				batch[0] = c16Generate(pl.ln, nattr)
+				batch[0], oks[0] = c16GenerateDeadline(pl.ln, nattr)
 			} else {
 				var wg sync.WaitGroup
 				for k := 0; k < conc; k++ {
 					wg.Add(1)
 					go func(k int) {
 						defer wg.Done()
-						batch[k] = c16Generate(pl.ln, 1+(nattr+k)%20)
+						batch[k], oks[k] = c16GenerateDeadline(pl.ln, 1+(nattr+k)%20)
 					}(k)
 				}
 				wg.Wait()
+			}
+			for k := range oks {
+				if !oks[k] {
+					// generation did not return within its budget: the property is violated ("generation
+					// terminates"); hand the parameters to exec as a failing input and end the battery
+					// (the abandoned call keeps the cores busy until this process exits)
+					fmt.Fprintf(os.Stderr, "C16 gen: GenerateKeyPair(Ln=%d) did not return within %v; battery cut short\n", pl.ln, keygenBudget(pl.ln))
+					emit(terminatesOp(pl.ln, 1+(nattr+k)%20, fmt.Sprintf("keygen-terminates-%d-hung", pl.ln)))
+					return
+				}
 			}
 			leaked := waitGoroutines(baseline, leakTimeout(pl.ln))
 			if leaked > 0 {
